@@ -69,4 +69,20 @@ void h_der_tlv_length_serialize(void) {
 	__CPROVER_assert((size >= 12 || buf[size < 12 ? size : 11] == 0xEE) && (n >= 12 || size < n || buf[n] == 0xEE), "C07: no write beyond min(size, needed)");
 }
 
+/* ber_skip_length: skipping a complete TLV body (definite or nested indefinite) of at most 10 octets */
+#include "ber_tlv_tag.c"
+void h_ber_skip_length(void) {
+	VF_BYTES(b, 6); VF_SCALAR(size_t, size); VF_SCALAR(size_t, cut); VF_SCALAR(int, constructed);
+	__CPROVER_assume(size <= 6 && cut <= size);
+	asn_codec_ctx_t ctx; memset(&ctx, 0, sizeof(ctx));
+	ssize_t r = ber_skip_length(&ctx, constructed, b, size);
+	ssize_t r2 = ber_skip_length(&ctx, constructed, b, cut);
+	VF_CANARY();
+	__CPROVER_assert(r >= -1 && (r <= 0 || (size_t)r <= size), "C04: skipped <= size");
+	if(r > 0 && !(b[0] & 0x80)) __CPROVER_assert(r == 1 + b[0], "C03: short definite form skips L and V");
+	if(r > 0 && constructed && b[0] == 0x80) __CPROVER_assert(r >= 3 && b[r - 1] == 0 && b[r - 2] == 0, "C03: an indefinite body ends with the end-of-contents octets");
+	if(r > 0 && cut < (size_t)r) __CPROVER_assert(r2 == 0 || r2 == -1, "C05: a proper prefix of the body is never reported complete");
+	if(r > 0 && cut >= (size_t)r) __CPROVER_assert(r2 == r, "C05: bytes after the body do not matter");
+}
+
 VF_NATIVE_MAIN
